@@ -34,23 +34,29 @@ def init_builders(facts):
     out = []
     if r is None:
         return out
-    seen = []
-    for e in hir.walk(r["body"]):
-        if e.get("k") == "call" and e["f"].get("k") == "path":
-            d = e["f"].get("resolved") or e["f"].get("def") or ""
-            rr = facts.fn(d)
-            if rr is None or d in seen or d == FX + "mut_arrays_remaining_elements":
-                continue
-            ret = rr.get("ret") or ""
-            kinds = ["edges" if "i16" in part else "rates" for part in re.findall(r"ArrayBase<[^()]*?Dim<\[usize; 2\]>>", ret)]
-            if not kinds:
-                continue
-            seen.append(d)
-            roles = []
-            for t in rr["sig"]:
-                t_ = t.replace("&", "")
-                roles.append("cur" if "IndexSet<" in t_ and "Ccy" in t_ else "pairs" if "FXPair" in t_ else "rates" if t_.startswith("[") else None)
-            out.append((d, roles, kinds))
+    seen, visited = [], set()
+
+    def scan(body, depth):
+        for e in hir.walk(body):
+            if e.get("k") == "call" and e["f"].get("k") == "path":
+                d = e["f"].get("resolved") or e["f"].get("def") or ""
+                rr = facts.fn(d)
+                if rr is None or d in seen or d in visited or d == FX + "mut_arrays_remaining_elements" or not d.startswith(FX):
+                    continue
+                ret = rr.get("ret") or ""
+                kinds = ["edges" if "i16" in part else "rates" for part in re.findall(r"ArrayBase<[^()]*?Dim<\[usize; 2\]>>", ret)]
+                roles = []
+                for t in rr.get("sig", []):
+                    t_ = t.replace("&", "")
+                    roles.append("cur" if "IndexSet<" in t_ and "Ccy" in t_ else "pairs" if "FXPair" in t_ else "rates" if t_.startswith("[") else None)
+                calls_fill = any(x.get("k") == "call" and (x["f"].get("resolved") or x["f"].get("def") or "") == FX + "mut_arrays_remaining_elements" for x in hir.walk(rr["body"]))
+                if kinds and "pairs" in roles and not calls_fill:
+                    seen.append(d)
+                    out.append((d, roles, kinds))
+                elif depth < 3:
+                    visited.add(d)
+                    scan(rr["body"], depth + 1)          # a helper between create_fx_array and the builders (e.g. one generic solve step per number kind)
+    scan(r["body"], 0)
     return out
 
 
